@@ -2,8 +2,11 @@
 import json
 import os
 
-from . import common, corpus
+from . import common, corpus, c08proto
 from .common import SPEC
+
+PROTOCOL_ONLY_OK = True     # the protocol-level stage needs only the harper-ls binary
+PROTO_TLA = os.path.join(SPEC, "trace", "Trace_PosProto.tla")
 
 TRACE_TLA = os.path.join(SPEC, "trace", "Trace_PosConv.tla")
 TRACE_CFG = os.path.join(SPEC, "trace", "Trace_PosConv.cfg")
@@ -68,8 +71,75 @@ def validate(v, trace, name):
     return len(distinct)
 
 
+def validate_proto(v, trace, name):
+    """Protocol-level events, one file per initialize exchange."""
+    outdir = os.path.dirname(trace)
+    files, buf = [], []
+
+    def flush():
+        if buf:
+            p = os.path.join(outdir, f"{name}_{len(files):03d}.ndjson")
+            open(p, "w").writelines(buf)
+            files.append(p)
+            buf.clear()
+    for line in open(trace):
+        if line.startswith('{"ev": "Init"'):
+            flush()
+        buf.append(line)
+    flush()
+    res = common.validate_traces_parallel(PROTO_TLA, TRACE_CFG, files, "c08_" + name, procs=8)
+    for f, consumed, rejects in res:
+        evs = common.read_ndjson(f)
+        if consumed != len(evs):
+            raise common.ToolError(f"trace {f}: consumed {consumed} of {len(evs)} events")
+        v.cov["evaluations"] += len(evs)
+        v.cov["traces_validated_against_impl"] += sum(1 for e in evs if e["ev"] == "Doc")
+        init, doc = None, None
+        for i, e in enumerate(evs):
+            if e["ev"] == "Init":
+                init = e
+            if e["ev"] == "Doc":
+                doc = e
+            for rej in [r for r in rejects if r[0] == i + 1]:
+                sig = {"kind": rej[1], "level": "protocol", "announced": (init or {}).get("announced")}
+                if doc is not None and e["ev"] != "Init":
+                    sig["lang"] = doc["lang"]
+                    sig["non_ascii_before"] = any(ord(ch) > 127 for ch in doc["text"][doc["text"].rfind("\n", 0, max(e.get("s", 0), 0)) + 1:max(e.get("s", 0), 0)])
+                v.failure(sig, {"event": e, "doc": doc, "init": init})
+
+
+def run_deviations(v):
+    """The named deviations of PosEncoding must be refuted by TLC (vacuity guard)."""
+    mc = os.path.join(SPEC, "mc", "MC_PosEncoding.tla")
+    for cfg, inv in (("MC_PosEncoding_dev_rev16", "LookupInsideE"),):
+        r = common.tlc(mc, os.path.join(SPEC, "mc", cfg + ".cfg"), "c08_" + cfg, workers=4, timeout=900, coverage=False)
+        if r.violated != inv:
+            raise common.ToolError(f"{cfg}: TLC did not refute {inv} (got {r.violated})")
+        v.cov.setdefault("deviations_refuted", []).append(cfg)
+    for cfg in ("MC_PosEncoding_code", "MC_PosEncoding_nego"):
+        r = common.tlc(mc, os.path.join(SPEC, "mc", cfg + ".cfg"), "c08_" + cfg, workers=8, timeout=1800, coverage=False)
+        if r.violated:
+            v.failure({"kind": "model", "invariant": r.violated, "cfg": cfg}, {"tlc_output": r.output[-3000:]})
+        v.add_mc(cfg, r, "every text over {LF, CR, ASCII, 2-byte, astral} up to MaxLen x every offer of position encodings: "
+                 "AnnouncedWasOffered, LookupInsideE, EditEqualsSuggestionE in the effective unit")
+
+
 def run(v):
     wd = common.workdir("c08")
+    run_deviations(v)
+    # protocol level: the real binary, clients that offer position encodings
+    corp_list, _ = corpus.harvest()
+    ptrace, pst = c08proto.run(wd, v.seed, corp_list, 40 if v.tier == "thorough" else 10)
+    validate_proto(v, ptrace, "p")
+    v.cov["protocol_level"] = {"sessions": pst["sessions"], "offers": c08proto.OFFERS, "diagnostics": pst["diags"],
+                               "positions_probed": pst["positions"], "edits_applied": pst["edits"], "distinct_text_spans": len(pst["spans"])}
+    if not common.HARNESS_OK:
+        v.cov["distinct_nontrivial"] = len(pst["spans"])
+        v.cov["rule"] = ("protocol level only (the harness does not compile against this tree): real harper-ls over stdio, "
+                         "clients offering position encodings; every diagnostic, code actions at every character of every "
+                         "range, every text edit applied client-side in the announced unit")
+        v.assumptions += ["the harness crate did not build against this tree: " + common.HARNESS_BUILD_ERROR[-300:]]
+        return v.finish()
     thorough = v.tier == "thorough"
     t = "thorough" if thorough else "quick"
     r = common.tlc(os.path.join(SPEC, "mc", "MC_PosConv.tla"), os.path.join(SPEC, "mc", f"MC_PosConv_{t}.cfg"),
@@ -95,7 +165,7 @@ def run(v):
                                   "--docs", 4000 if thorough else 300], timeout=7200)
     if rc != 0:
         raise common.ToolError("hv c08 failed: " + err[-2000:])
-    v.cov["distinct_nontrivial"] = validate(v, trace, "t")
+    v.cov["distinct_nontrivial"] = validate(v, trace, "t") + len(pst["spans"])
     v.cov["tlc_cases_replayed"] = n
     v.cov["rule"] = ("Conv: every well-formed text (CR only before LF) up to the generation bound from TLC x every "
                      "in-line span, through the real span_to_range/range_to_span and the overlap lookup at every "
@@ -113,6 +183,13 @@ def replay(v, path):
     print(json.dumps(rep["replay"], ensure_ascii=False)[:3000])
     wd = common.workdir("c08_replay")
     trace = os.path.join(wd, "trace.ndjson")
+    if rep["replay"].get("init"):
+        with open(trace, "w") as f:
+            for e in (rep["replay"]["init"], rep["replay"].get("doc"), rep["replay"]["event"]):
+                if e and (e["ev"] != "Init" or e is rep["replay"]["init"]):
+                    f.write(json.dumps(e) + "\n")
+        validate_proto(v, trace, "r")
+        return v.finish()
     with open(trace, "w") as f:
         if rep["replay"].get("doc"):
             f.write(json.dumps(rep["replay"]["doc"]) + "\n")
